@@ -24,6 +24,7 @@ type avariant struct {
 	Equal    [][2]string         // pairs of boolean leaves constrained to be equal (wire aliases)
 	AnyTrue  []string            // [N]bool arrays constrained to contain at least one true element
 	AllFalse []string            // [N]bool arrays fixed to all-false
+	Ignore   []string            // leaves excluded from the inverse comparison (encoder-recomputed bookkeeping fields)
 }
 
 type aspec struct {
@@ -382,6 +383,11 @@ func runApp(c *Ctx, sp aspec) *codecResult {
 					}
 				}()
 				deepCompare(in, "", recv.V, val, cond, func(p string, ok bool, why string) {
+					for _, ig := range v.Ignore {
+						if strings.TrimPrefix(p, ".") == ig {
+							return
+						}
+					}
 					res.add("app.inv", "inv/"+tag+p, ok, "decode(encode(v))"+p+" = v"+p+" for every in-range v", why, pos)
 				})
 			}()
